@@ -38,6 +38,12 @@ CLAIMED["C10"] = ("TLC checks PrefixConsistent in every state of the destination
             "Trusted: TLC, mdparse (independent decoder) for the extents of streams and of what they reference, the recording destination; one write_all = one step.",
             "TLA+ model checking (TLC) + fault enumeration at every destination call + trace validation", "DESIGN.md 4/C10")
 
+CLAIMED["C15"] = ("TLC checks the placement model of thread_names_stream for every list of up to 4 threads and every named/unnamed subset; real dumps "
+            "of targets with chosen thread lists are taken with the name read failing for every subset of threads (per-thread fail-point toggling from the "
+            "enumerate hook) and with names of every shape; TLC compares the decoded (tid, name) set with the kernel's comm and checks the slot order the model predicts.",
+            "Trusted: TLC, mdparse, /proc/<pid>/task/<tid>/comm as read by the harness, the hook-driven toggling of the ThreadName fail point.",
+            "TLA+ model checking (TLC) + scenario-generated dumps + trace validation", "DESIGN.md 4/C15")
+
 NOT_YET = {
 }
 
